@@ -975,8 +975,22 @@ pub fn run(tier: &str) -> i32 {
   let r2 = run_pool(12, &opts2, |_| W::new(), |w, case, ctx| charge_case(w, ctx, case), |case, how| (format!("C07 crash={} stage=charge", how), J::obj().set("case", J::u(case))));
   let c2 = rep.add_stage("charge-consumed", "via {halt,stop,run} x PC 4 x IF 32 x IE 32 x IME 3 at SP=DFF0: every dispatching case followed by a second update()", r2);
 
+  // the same question for the recompiler: the charge must reach the devices when the *next
+  // translated block* is accounted (the block prologue has to carry registers.cycles in)
+  let c3n = match next_block_stage(&mut rep) {
+    Some(r3) => {
+      let c3 = rep.add_stage(
+        "charge-consumed-by-next-block",
+        "jit build (separate process) and this build: IF 32 x IE 32 x run state 3 x PC 4, IME on, SP=DFF0: handle_interrupt() then update() on the block at the vector, against the same update() entered with the charge removed (difference must be exactly 20 clocks of device time and nothing may be left in registers.cycles)",
+        r3,
+      );
+      c3[0]
+    },
+    None => 0,
+  };
+
   // pool cases are SP values; the evidence counts executed transitions
-  rep.evaluations = c[N_TRANS] + c2[N_CHARGE];
+  rep.evaluations = c[N_TRANS] + c2[N_CHARGE] + c3n;
 
   // non-vacuity
   for i in 0..5 {
@@ -1038,4 +1052,131 @@ pub fn run(tier: &str) -> i32 {
     }),
   );
   rep.finish()
+}
+
+// ---------------------------------------------------------------------------------------------
+// charge consumed by the next block, in whatever engine this build uses for ROM code
+
+/// One case = (run state, PC): all IF x IE with IME on.  After a dispatch the next `update()`
+/// runs the block at the vector (`NOP; HALT` planted there).  The divider must advance by
+/// exactly 20 clocks more than when the same `update()` is entered from the same state with
+/// `registers.cycles` cleared, whatever the engine and however long the block is.
+fn next_block_case(core: &mut Core, ctx: &mut Ctx, case: u64) {
+  let run = (case % 3) as u8;
+  let pc = PCS[(case / 3) as usize % 4];
+  let sp: u16 = 0xDFF0;
+  let mut n = 0u64;
+  for ie in 0..32u8 {
+    for iflag in 0..32u8 {
+      let m = St { iflag, ie, ime: IME_ENABLED, run, pc, sp };
+      let e = r4(&m, &Env::default());
+      if e.nw == 0 {
+        continue;
+      }
+      let mut delta = [0u32; 2];
+      let mut left = [0u32; 2];
+      let mut vec_pc = 0u32;
+      for pass in 0..2 {
+        core.memory.io.timer = Box::new(Timer::new());
+        core.memory.io.video = Box::new(VideoState::new());
+        core.registers.ip = pc as u32;
+        core.registers.sp = sp as u32;
+        core.registers.cycles = 0;
+        core.registers.af = 0;
+        core.interrupts_enabled = ime_of(IME_ENABLED);
+        core.run_state = run_of(run);
+        core.memory.io.interrupt_flag = InterruptFlag::new(iflag);
+        crate::mem::memory_write_byte(&mut core.memory as *mut MemoryAreas, 0xFFFF, ie);
+        core.memory.oam_dma = None;
+        core.handle_interrupt();
+        vec_pc = core.registers.ip;
+        if pass == 1 {
+          core.registers.cycles = 0; // the charge removed: baseline
+        }
+        let t_mid = core.memory.io.timer.verif_cycle_count();
+        core.update();
+        let t_end = core.memory.io.timer.verif_cycle_count();
+        delta[pass] = (t_end.wrapping_sub(t_mid)) & 0xFFFF;
+        left[pass] = core.registers.cycles;
+      }
+      n += 1;
+      ctx.class(((delta[0] as u64) << 8) | (vec_pc as u64 >> 3));
+      if delta[0] != delta[1] + 20 || left[0] != 0 {
+        let key = format!("C07 via=next-block build={} field=cycles kind=charge-not-delivered", crate::progrun::this_build());
+        ctx.violation(&key, || {
+          J::obj()
+            .set("case", J::obj().set("if", J::u(iflag as u64)).set("ie", J::u(ie as u64)).set("ime", J::s("enabled")).set("run", J::s(RUN_NAME[run as usize])).set("pc", J::s(format!("{:04X}", pc))).set("sp", J::s("DFF0")).set("then", J::s("update() on the block at the vector (NOP; HALT)")))
+            .set("expected", J::obj().set("device_clocks_more_than_without_the_charge", J::u(20)).set("registers_cycles_left", J::u(0)))
+            .set("observed", J::obj().set("device_clocks_with_charge", J::u(delta[0] as u64)).set("device_clocks_without_charge", J::u(delta[1] as u64)).set("registers_cycles_left", J::u(left[0] as u64)))
+        });
+      }
+    }
+  }
+  ctx.count(0, n);
+}
+
+fn next_block_core() -> Box<Core> {
+  let mut rom = vec![0u8; 0x8000];
+  rom[0x100..0x150].copy_from_slice(&world::header_bytes(0x00, 0x00, 0x00)[0x100..0x150]);
+  for v in [0x0000usize, 0x40, 0x48, 0x50, 0x58, 0x60].iter() {
+    rom[*v] = 0x00; // NOP
+    rom[*v + 1] = 0x76; // HALT: ends the block
+  }
+  world::flat_core(rom)
+}
+
+fn next_block_pool() -> crate::util::pool::PoolResult {
+  let opts = PoolOpts { chunk: 1, bitmap_bits: 1 << 16, samples_per_child: 0, workers: 4, ..PoolOpts::default() };
+  run_pool(12, &opts, |_| next_block_core(), |core, case, ctx| next_block_case(core, ctx, case), |case, how| (format!("C07 via=next-block build={} crash={}", crate::progrun::this_build(), how), J::obj().set("case", J::u(case))))
+}
+
+/// worker entry (jit build): `gbmc C07 --worker next-block <out.json>`
+pub fn worker(args: &[String]) -> i32 {
+  if args.len() < 2 || args[0] != "next-block" {
+    eprintln!("C07 worker: bad arguments {:?}", args);
+    return 2;
+  }
+  let r = next_block_pool();
+  if std::fs::write(&args[1], r.to_json().to_string()).is_err() {
+    return 2;
+  }
+  0
+}
+
+fn next_block_stage(rep: &mut Report) -> Option<crate::util::pool::PoolResult> {
+  let mut r = next_block_pool();
+  let bin = match std::env::var("GBMC_JIT_BIN") {
+    Ok(b) => b,
+    Err(_) => {
+      rep.machinery_error("GBMC_JIT_BIN not set (run through bin/check)".to_string());
+      return None;
+    },
+  };
+  let out = format!("{}/c07_next_block.json", crate::util::pool::tmp_dir());
+  match std::process::Command::new(&bin).args(&["C07", "--worker", "next-block", &out]).status() {
+    Ok(s) if s.success() => {},
+    Ok(s) => {
+      rep.machinery_error(format!("jit worker failed: {:?}", s));
+      return None;
+    },
+    Err(e) => {
+      rep.machinery_error(format!("cannot start jit worker {}: {}", bin, e));
+      return None;
+    },
+  }
+  match crate::progrun::parse_json_file(&out) {
+    Ok(m) => {
+      let rj = crate::util::pool::PoolResult::from_json(&m, "jit worker");
+      if rj.cases_done != 12 || rj.counters[0] != r.counters[0] {
+        rep.machinery_error(format!("jit worker covered {} cases / {} dispatches, this build {} / {}", rj.cases_done, rj.counters[0], r.cases_done, r.counters[0]));
+      }
+      r.merge(rj);
+    },
+    Err(e) => {
+      rep.machinery_error(format!("jit worker result: {}", e));
+      return None;
+    },
+  }
+  let _ = std::fs::remove_file(&out);
+  Some(r)
 }
